@@ -4,12 +4,14 @@ import copy
 import random
 
 import apicheck as A
+import linkobs as L
 import gen_html as H
 import htmlobs as HO
 import imgconv as IC
 from common import run_driver
 
-PROFILE = dict(separators=True, style_map=0.7, hostile=0.8, p_hyperlink=0.3, p_bookmark=0.2, p_image=0.2, p_note=0.15, p_field=0.2, p_comment=0.1)
+PROFILE = dict(separators=True, style_map=0.7, hostile=0.8, p_hyperlink=0.3, p_bookmark=0.2, p_image=0.2, p_note=0.15, p_field=0.2, p_comment=0.1,
+               p_odd_target=0.6)   # link targets / field URLs that a URL library would re-serialise (scheme case, drive letters, `?#`, blanks)
 SM = dict(hid=0, hostile=0.6)
 
 
@@ -23,6 +25,8 @@ def well_formed(case, r):
     probs = []
     if not HO.void_ok(nodes):
         probs.append("a void element is not self-closed (or a non-void one is)")
+    # link targets decode back to exactly the original string: every external href is, character by character, a string of the package
+    probs.extend(L.href_problems(case, r))
     return probs
 
 
@@ -152,6 +156,8 @@ def run(out, tier, seed, model_ok):
     out.extra["features"] = run_.stats
     out.sample({"options": cs[0]["options"]})
     out.sample({"forest": forests[0] if forests else None})
+    out.rule += ("; link targets / field URLs also in the spellings a URL library would re-serialise (scheme case, drive letters, UNC and file://// forms, `?` before `#`, "
+                 "existing / empty fragments, surrounding blanks), each external href checked character by character against the package's strings")
 
 
 def _all(f):
